@@ -1,9 +1,242 @@
-import OnosVerif.V3.System
+/-
+C20 — the v3 transaction protocol keeps its specified order and consistency.
+
+Property theorems only.  The twin is `OnosVerif/V3/{Model,System}.lean` (the v3 transaction,
+configuration and mastership reconcilers and the v3 stores, one reconcile invocation = a plan of at
+most two store writes applied under an injection); `OnosVerif/V3/Spec.lean` holds the project's own
+TLA+ invariants transcribed literally and the schedule predicates; the invariants and the bridge
+are in `OnosVerif/Proofs/V3*.lean`.  The twin is tied to the Go code by `harness/props/c20`.
+
+Quantifier: all histories (unbounded logs, any rollback requests) × every interleaving of reconcile
+invocations × every failed / crashed write between the transaction and the configuration record ×
+target restarts, topology and mastership changes (`Action`, `run`).  The positive theorems hold for
+schedules in which the *first* write of a transaction-reconciler invocation is not a swallowed CAS
+conflict (`safeSchedule`: `updateConfigurationStatus` / `updateTransactionStatus` return nil on a
+conflict and the caller goes on to its second write) and no side-map transaction fails
+(`storeNeverFails`: such a failure is itself reported as a conflict and swallowed).  The code does
+not satisfy the property without these preconditions: the negations are proved on concrete
+schedules, which the harness replays on the real reconciler (`corpus/C20/kf-*.script`).
+-/
+import OnosVerif.Proofs.V3Bridge3
+import OnosVerif.Proofs.V3Inv4
 
 namespace OnosVerif.Props.C20
 open OnosVerif.V3
 
-/-- placeholder -/
-theorem C20_placeholder : (initSys 1).txs = [] := rfl
+/-- the state after a schedule, from a freshly created configuration -/
+abbrev after (seed : Nat) (acts : List Action) : Sys := run (initSys seed) acts
+
+/-- every invariant layer holds after every schedule without swallowed conflicts -/
+theorem reachable_inv (seed : Nat) (acts : List Action)
+    (hs : safeSchedule acts = true) (hf : storeNeverFails (initSys seed) acts = true) :
+    FullInv (core (after seed acts)) :=
+  FullInv.reach (run_reach (initSys seed) acts (by rw [core_initSys]; exact CReach.init) hs hf)
+
+/-! ## Order -/
+
+/-- **Order (spec/Config.tla), for schedules without swallowed conflicts.**  Over unbounded logs,
+    terms and restarts: every Complete event of the history is an ordered change (commits and
+    applies of changes happen in log order) or an ordered rollback (the change was completed before
+    and no later change has completed that stage without having been rolled back), and the spec's
+    second conjunct holds as written. -/
+theorem C20_order_partial (seed : Nat) (acts : List Action)
+    (hs : safeSchedule acts = true) (hf : storeNeverFails (initSys seed) acts = true) :
+    Order (core (after seed acts)) := by
+  refine ⟨(reachable_inv seed acts hs hf).order, ?_⟩
+  intro i ti _ hfail _
+  rintro ⟨j, tj, _, _, h | h⟩ <;> rw [hfail] at h <;> cases h
+
+/-- a value for the witnesses -/
+def pvA (i : Nat) : Values :=
+  [("/a".toList, { path := "/a".toList, value := [Char.ofNat (48 + i)], deleted := false, index := i })]
+
+/-- a healthy topology: one connection, a master elected, the configuration synchronised -/
+def healthy : List Action :=
+  [.env (.relAdd "r".toList), .env (.connAdd "r".toList), .mast none [] none,
+   .cfg "ok".toList [] none [], .cfg "ok".toList [] none []]
+
+/-- a schedule with two swallowed configuration conflicts (found by exhaustive exploration of the
+    twin): the rollback of change 1 is applied to the device *after* the later change 2 -/
+def orderWitness : List Action := healthy ++ [
+  .append (pvA 1), .append (pvA 2),
+  .tx 1 .valid "ok".toList [] none, .tx 1 .valid "ok".toList [] none,
+  .rollback 1,
+  .tx 1 .valid "ok".toList [.conflict] none,   -- Committed.Target := rollback index is lost
+  .tx 1 .valid "ok".toList [] none, .tx 1 .valid "ok".toList [] none,
+  .tx 1 .valid "ok".toList [.conflict] none,   -- Applied.Target := rollback index is lost
+  .tx 1 .valid "ok".toList [.ok, .fail] none,  -- the rollback reaches the device, the status write fails
+  .tx 2 .valid "ok".toList [] none, .tx 2 .valid "ok".toList [] none,
+  .tx 2 .valid "ok".toList [] none, .tx 2 .valid "ok".toList [] none,
+  .tx 1 .valid "ok".toList [] none]            -- the rollback is sent to the device again
+
+theorem orderWitness_hist : (after 1 orderWitness).hist =
+    [⟨.change, .commit, .inProgress, 1⟩, ⟨.change, .commit, .complete, 1⟩, ⟨.rollback, .commit, .complete, 1⟩,
+     ⟨.change, .apply, .aborted, 1⟩, ⟨.rollback, .apply, .complete, 1⟩, ⟨.change, .commit, .inProgress, 2⟩,
+     ⟨.change, .commit, .complete, 2⟩, ⟨.change, .apply, .inProgress, 2⟩, ⟨.change, .apply, .complete, 2⟩,
+     ⟨.rollback, .apply, .complete, 1⟩] := by decide
+
+/-- **Order does not hold for all schedules**: with swallowed conflicts on the configuration writes
+    of `commitRollback` / `applyRollback` the history of `orderWitness` ends with the rollback of
+    change 1 completing its apply after change 2 completed its apply (event 9 after event 8). -/
+theorem C20_order_fails_with_swallowed_conflicts : ¬ Order (core (after 1 orderWitness)) := by
+  rintro ⟨ho, _⟩
+  simp only [core_hist] at ho
+  rw [orderWitness_hist] at ho
+  rcases ho 9 ⟨.rollback, .apply, .complete, 1⟩ (by decide) rfl with h | h | h | h
+  · obtain ⟨e, he, hp, _⟩ := h
+    simp at he; subst he; cases hp
+  · obtain ⟨e, he, hp, _⟩ := h
+    simp at he; subst he; cases hp
+  · obtain ⟨e, he, _, hs, _⟩ := h
+    simp at he; subst he; cases hs
+  · obtain ⟨e, he, _, _, _, _, hno⟩ := h
+    simp at he; subst he
+    apply hno
+    refine ⟨8, ⟨.change, .apply, .complete, 2⟩, by omega, by decide, rfl, rfl, rfl, by decide, ?_⟩
+    rintro ⟨k, _, h1, h2, _⟩
+    omega
+
+example : safeSchedule orderWitness = false := by decide
+
+/-! ## Commit before apply -/
+
+/-- **Each phase is committed before it is applied (history form).**  Every event of the apply
+    stage (InProgress, Complete, Aborted, Failed — of a change or of a rollback) is preceded by the
+    commit-Complete event of the same phase of the same transaction. -/
+theorem C20_commit_before_apply_partial (seed : Nat) (acts : List Action)
+    (hs : safeSchedule acts = true) (hf : storeNeverFails (initSys seed) acts = true) :
+    CommitBeforeApplyHist (after seed acts).hist :=
+  (reachable_inv seed acts hs hf).cba
+
+/-- **Each phase is committed before it is applied (record form).**  A transaction whose change
+    apply left Pending (and was not cancelled by a failed validation) has its change commit
+    Complete; a rollback is requested only for a committed change; a rollback apply that left
+    Pending has its rollback commit Complete. -/
+theorem C20_commit_before_apply_records (seed : Nat) (acts : List Action)
+    (hs : safeSchedule acts = true) (hf : storeNeverFails (initSys seed) acts = true)
+    (i : Nat) (t : TxC) (ht : (core (after seed acts)).tx i = some t) :
+    (t.ca ≠ .pending → t.ca ≠ .canceled → t.cc = .complete) ∧
+    (t.rc ≠ none → t.cc = .complete) ∧
+    (t.ra ≠ none → t.ra ≠ some .pending → t.rc = some .complete) := by
+  have hwf := (reachable_inv seed acts hs hf).inv.c.wf i t ht
+  refine ⟨?_, hwf.rc_cc, ?_⟩
+  · intro h1 h2
+    rcases hwf.ca_cc with h | h | h
+    · exact absurd h h1
+    · exact absurd h h2
+    · exact h
+  · intro h1 h2
+    rcases hwf.ra_rc with h | h | h
+    · exact absurd h h1
+    · exact absurd h h2
+    · exact h
+
+/-- the swallowed conflict of `commitChange` (the expected defect): the configuration write of a
+    valid change conflicts, the transaction is marked commit-Complete all the same -/
+def commitWitness : List Action := healthy ++ [
+  .append (pvA 1),
+  .tx 1 .valid "ok".toList [] none,
+  .tx 1 .valid "ok".toList [.conflict] none,
+  .tx 1 .valid "ok".toList [] none]
+
+/-- **Commit-before-apply does not hold for all schedules**: after `commitWitness` change 1 is in
+    the apply stage (an apply event is in the history) although no commit-Complete event exists —
+    `Committed.{Index,Change,Revision,Values}` were never written. -/
+theorem C20_commit_before_apply_fails_with_swallowed_conflict :
+    ¬ CommitBeforeApplyHist (after 1 commitWitness).hist := by
+  have hh : (after 1 commitWitness).hist =
+      [⟨.change, .commit, .inProgress, 1⟩, ⟨.change, .apply, .inProgress, 1⟩] := by decide
+  rw [hh]
+  intro h
+  obtain ⟨j, hj, he⟩ := h 1 ⟨.change, .apply, .inProgress, 1⟩ (by decide) rfl
+  have : j = 0 := by omega
+  subst this
+  simp at he
+
+/-- in the same state the transaction is commit-Complete but the configuration does not know it -/
+example : ((core (after 1 commitWitness)).tx 1).map (·.cc) = some .complete ∧
+    (core (after 1 commitWitness)).cur.cChange = 0 := by decide
+
+/-! ## Cursors -/
+
+/-- **The committed cursors.**  `Committed.Change` is the frontier of the log: it never exceeds the
+    log length, `Committed.Index` equals it, `Committed.Revision` never exceeds it,
+    `Committed.Target` is at most one ahead; every transaction beyond the one after the frontier is
+    still commit-Pending, every transaction before it is commit-Complete or commit-Failed. -/
+theorem C20_cursor_committed (seed : Nat) (acts : List Action)
+    (hs : safeSchedule acts = true) (hf : storeNeverFails (initSys seed) acts = true) :
+    let k := core (after seed acts)
+    k.cur.cChange ≤ k.txs.length ∧ k.cur.cIndex = k.cur.cChange ∧ k.cur.cRevision ≤ k.cur.cChange ∧
+    k.cur.cTarget ≤ k.cur.cChange + 1 ∧
+    (∀ j t, k.tx j = some t → k.cur.cChange + 1 < j → t.cc = .pending) ∧
+    (∀ j t, k.tx j = some t → j < k.cur.cChange → t.cc = .complete ∨ t.cc = .failed) := by
+  have h := (reachable_inv seed acts hs hf).inv.c
+  exact ⟨h.K_le, h.idx, h.rev_le, h.tgt_le, h.beyond, h.below⟩
+
+/-- **Ordinals.**  The ordinals handed out at commit are positive, bounded by
+    `Committed.Ordinal`, strictly increasing with the log index among committed changes, and the
+    ordinal of a committed rollback is larger than the ordinal of every committed change. -/
+theorem C20_ordinals (seed : Nat) (acts : List Action)
+    (hs : safeSchedule acts = true) (hf : storeNeverFails (initSys seed) acts = true) :
+    let k := core (after seed acts)
+    (∀ j t, k.tx j = some t → t.cc = .complete → 1 ≤ t.cord ∧ t.cord ≤ k.cur.cOrdinal) ∧
+    (∀ j1 t1 j2 t2, k.tx j1 = some t1 → k.tx j2 = some t2 → j1 < j2 →
+      t1.cc = .complete → t2.cc = .complete → t1.cord < t2.cord) ∧
+    (∀ j1 t1 j2 t2, k.tx j1 = some t1 → k.tx j2 = some t2 →
+      t1.cc = .complete → t2.rc = some .complete → t1.cord < t2.rord) := by
+  have h := (reachable_inv seed acts hs hf).inv.o
+  refine ⟨fun j t hj => (h.one j t hj).cord1, ?_, ?_⟩
+  · intro j1 t1 j2 t2 h1 h2 hlt
+    exact (h.two j1 t1 j2 t2 h1 h2 (by omega)).mono hlt
+  · intro j1 t1 j2 t2 h1 h2 hc hr
+    by_cases e : j1 = j2
+    · subst e
+      rw [h1] at h2
+      cases h2
+      exact (h.one j1 t1 h1).selfr hc hr
+    · exact (h.two j1 t1 j2 t2 h1 h2 e).rordgt hc hr
+
+/-- **The applied cursors.**  `Applied.Ordinal` never runs ahead of `Committed.Ordinal`; it has
+    passed the ordinal of every change whose apply is Complete, is at most one behind the ordinal of
+    every Aborted / Failed one and exactly one behind (or, with the status write still missing, at)
+    the ordinal of the one InProgress change, of which there is at most one; it has not reached the
+    ordinal of any committed change whose apply is Pending. -/
+theorem C20_cursor_applied (seed : Nat) (acts : List Action)
+    (hs : safeSchedule acts = true) (hf : storeNeverFails (initSys seed) acts = true) :
+    let k := core (after seed acts)
+    k.cur.aOrdinal ≤ k.cur.cOrdinal ∧
+    (∀ j t, k.tx j = some t → t.ca = .complete → t.cord ≤ k.cur.aOrdinal) ∧
+    (∀ j t, k.tx j = some t → (t.ca = .aborted ∨ t.ca = .failed) → t.cord ≤ k.cur.aOrdinal + 1) ∧
+    (∀ j t, k.tx j = some t → t.ca = .inProgress →
+      (k.cur.aOrdinal + 1 = t.cord ∧ k.cur.aTarget = j) ∨
+      (k.cur.aOrdinal = t.cord ∧ k.cur.aRevision = j ∧ k.cur.aIndex = j ∧ k.cur.aTarget = j)) ∧
+    (∀ j1 t1 j2 t2, k.tx j1 = some t1 → k.tx j2 = some t2 → j1 ≠ j2 →
+      t1.ca = .inProgress → t2.ca ≠ .inProgress) ∧
+    (∀ j t, k.tx j = some t → t.ca = .pending → t.cc = .complete → k.cur.aOrdinal < t.cord) := by
+  have h := (reachable_inv seed acts hs hf).inv.o
+  refine ⟨h.gl.a_le, fun j t hj => (h.one j t hj).a3, fun j t hj => (h.one j t hj).a2,
+    fun j t hj => (h.one j t hj).a1, ?_, fun j t hj => (h.one j t hj).a4⟩
+  intro j1 t1 j2 t2 h1 h2 hne hip hip2
+  exact (h.two j1 t1 j2 t2 h1 h2 hne).one_ip hip hip2
+
+/-! ## Non-vacuity -/
+
+/-- a schedule that satisfies both preconditions and goes through a failed write, a device
+    rejection, an aborted change and a complete rollback (change 3 is then never committed: the
+    rollback wedge, `C20_terminates`) -/
+def sampleSchedule : List Action := healthy ++ [
+  .append (pvA 1), .append (pvA 2), .append (pvA 3),
+  .tx 1 .valid "ok".toList [] none, .tx 1 .valid "ok".toList [.ok, .fail] none, .tx 1 .valid "ok".toList [] none,
+  .tx 2 .valid "ok".toList [] none, .tx 2 .valid "ok".toList [] none,
+  .tx 1 .valid "ok".toList [] none, .tx 1 .valid "internal".toList [] none,
+  .tx 2 .valid "ok".toList [.fail] none, .tx 2 .valid "ok".toList [] none,
+  .rollback 2,
+  .tx 2 .valid "ok".toList [] none, .tx 2 .valid "ok".toList [] none,
+  .tx 2 .valid "ok".toList [] none, .tx 2 .valid "ok".toList [] none]
+
+example : safeSchedule sampleSchedule = true ∧ storeNeverFails (initSys 1) sampleSchedule = true := by decide
+
+example : (after 1 sampleSchedule).hist.length = 11 ∧
+    ((core (after 1 sampleSchedule)).tx 2).map (fun t => (t.ca, t.rc)) = some (.aborted, some .complete) := by decide
 
 end OnosVerif.Props.C20
